@@ -95,6 +95,9 @@ fn check_subject(c: &mut Case, s: &dyn Subject, thorough: bool) -> Outcome {
                 };
                 evals += 1;
                 ensure!(pr.rows.len() == idx.len(), "C03/length/outputs-vs-rows", {"case": desc, "outputs": pr.rows.len()});
+                if form == Form::Inplace {
+                    ensure!(pr.records_ok, "C03/inplace/target-buffer-not-overwritten", {"case": desc});
+                }
                 ensure!(pr.records_ok, "C03/records/altered", {"case": desc});
                 for (pos, &i) in idx.iter().enumerate() {
                     ensure!(pr.rows[pos].len() == width, "C03/length/width", {"case": desc, "row": pos});
